@@ -58,6 +58,12 @@ CHECKS = {
     'C20': (EX, 'small-scope exhaustive enumeration of task graphs; diagram text parsed back and compared with an independent traversal',
             'Task graphs over 4 typed task types with scalar / single-task / list / dict / nested-collection parameters to depth 2 (quick) / 3 (thorough) plus pairs of tasks differing in single-vs-collection use of a parameter: class blocks = reachable types once each with all parameters and the run signature; arrows = reference (dependent, parameter, dependency) set once each with the right many flag; identical text on rebuild and in fresh interpreters under other hash seeds.',
             'Trusted: the line-form parser in props/c20.py.', 'E5', '5/C20'),
+    'C12': (FE, 'exhaustive single-fault injection at every storage operation and every executed line of the save path, recovery oracle on a fresh Lab',
+            'One real serial-backend run per injection point: every file_handle-for-write, every write() call and every close() of the save (raise; thorough: also partial write), every LINE event of cache.py/storage.py/serialization.py inside BaseCache.save, and results that cannot be serialised before/after one/after many frames; x PickleCache and a JSON cache format x small and multi-frame results x first save and overwrite. Afterwards a fresh Lab must either not report the task (is_cached, cached_tasks) or load a correct value without executing; cached_tasks must not raise.',
+            'Single fault per run; faults are OSError subclasses; LocalStorage; line granularity (sys.monitoring), not bytecode.', 'E6', '5/C12'),
+    'C13': (FE, 'exhaustive crash-state enumeration of the raw write history of a real save (all prefixes, torn writes, flushed buffers) + real SIGKILL validation',
+            'The real save runs over a logging raw-file layer; every prefix of the mkdir/open/write/close log, three torn variants of every write and the all-bytes-flushed variant at every Python-level write call are materialised (first save: empty dir; overwrite: on a copy of the complete old entry) and checked by the recovery oracle (old or new value acceptable after overwrite). The log is validated by replaying it to the real final directory and by real SIGKILLs of a forked saver at traced lines, whose leftovers must equal a materialised prefix.',
+            'Process kills only (completed write() calls survive); LocalStorage; pickle and JSON cache formats.', 'E6', '5/C13'),
 }
 
 PENDING = {
